@@ -6,6 +6,9 @@ and for floats the driver's one-lane Fallback dictionary (scalar IEEE operations
 correspondence run) applied lane by lane; max/min are compared by value (the sign of zero is unspecified by the property).
 A difference is a concrete register on which the code, as modelled, violates the property. This is a search, not a proof:
 it only supplies the replay when a NEON theorem no longer checks.
+
+Every `<method>_dense` (8 registers at once) is compared with the register method of the same backend applied to each of
+its 8 registers (lane-wise faithfulness of the dense forms); this also covers the Avx2Fma backend.
 """
 import random, struct, subprocess
 
@@ -82,7 +85,7 @@ def run_one(driver, seed, cases, backend="Neon", regbits=128, tf=None):
     rnd = random.Random(seed)
     reqs = []    # (request, checker) ; checker(answer, answers_of_aux) -> None | description
     plan = []
-    for ty in list(INT_TYPES) + list(FLOAT_TYPES):
+    for ty in ([] if backend == "Avx2Fma" else list(INT_TYPES)) + list(FLOAT_TYPES):
         isint = ty in INT_TYPES
         w = INT_TYPES[ty][0] if isint else FLOAT_TYPES[ty]
         L = regbits // w
@@ -113,6 +116,12 @@ def run_one(driver, seed, cases, backend="Neon", regbits=128, tf=None):
                 if method == "fmadd":
                     args.append(("r", pick()))
                 plan.append((ty, method, args, None))
+                # the dense (8-register) form of the same method: must be the register method on each of its registers
+                dense = lambda nz=False: sum((pick(nz=nz, nonan=nonan) for _ in range(8)), [])
+                dargs = [("d", dense()), ("d", dense(nz=(method == "div" and isint)))]
+                if method == "fmadd":
+                    dargs.append(("d", dense()))
+                plan.append((ty, method + "_dense", dargs, None))
     # build the request stream: the NEON request, then (floats, arithmetic) the per-lane scalar requests
     lines = ["env 0 0 0 1"]
     if tf:
@@ -125,7 +134,11 @@ def run_one(driver, seed, cases, backend="Neon", regbits=128, tf=None):
         main = len(lines)
         lines.append("reg %s %s %s %s" % (backend, ty, method, " ".join(_enc(p, ls) for p, ls in args)))
         aux = []
-        if not isint and method == "fmadd" and backend == "Avx2":
+        if method.endswith("_dense"):
+            for k in range(8):
+                aux.append(len(lines))
+                lines.append("reg %s %s %s %s" % (backend, ty, method[:-6], " ".join(_enc("r", ls[k * L:(k + 1) * L]) for _, ls in args)))
+        elif not isint and method == "fmadd" and backend == "Avx2":
             # the `nofma` backend: `acc + x*y` with two roundings in every lane = the scalar (Fallback) fmadd
             for k in range(L):
                 aux.append(len(lines))
@@ -166,7 +179,12 @@ def run_one(driver, seed, cases, backend="Neon", regbits=128, tf=None):
         got = lanes_of(ans)
         want = None
         byvalue = False
-        if method == "filled":
+        if method.endswith("_dense"):
+            want = []
+            for k in aux:
+                r = lanes_of(outs[k] if k < len(outs) else "")
+                want += r if r else [None] * L
+        elif method == "filled":
             want = [args[0][1][0]] * L
         elif method == "sum_to_value" and not isint:
             byvalue = True
@@ -239,9 +257,11 @@ def run(driver, seed, cases, backend="Neon", configs=None):
     total = {"cases": 0, "violations": [], "histogram": {}, "driver_rc": 0, "driver_stderr": ""}
     for c in configs:
         b = c.get("backend", "Neon")
-        if b == "Avx2Fma":
-            continue  # it is the oracle for fused multiply-add
         r = run_one(driver, seed, cases, b, REGBITS.get(b, 128), c.get("tf"))
+        if b == "Avx2Fma":
+            # its register-level fmadd is the oracle for fused multiply-add (validated on this CPU by the `reg` correspondence):
+            # only the dense forms, which are compared with its own register methods, say something
+            r["violations"] = [v for v in r["violations"] if v["routine"].endswith("_dense")]
         total["cases"] += r["cases"]
         total["violations"] += r["violations"]
         tag = b + ("" if not c.get("tf") else "+tf" + "".join(str(int(x)) for x in c["tf"]))
